@@ -12,7 +12,9 @@ repeated cues with remove_duplicates=False on both sides, outcomes unique
 within an event.  Stream many_chunks_<flavour>: 23..38 events with
 events_per_temporary_file in {2, 3} (11..15 chunk files).  Streams onehot_numpy /
 onehot_dict_wh: method='numpy' and dict_wh (single-cue/single-outcome events,
-one-hot tables) against ndl.ndl on the same events.
+one-hot tables) against ndl.ndl on the same events; both are also compared with
+THEIR OWN Lean models (whNumpyModel / dictWhModel, driver ops wh_numpy / dict_wh;
+C14 wh_numpy_onehot_eq_ndl, dict_wh_onehot_eq_ndl) besides whModel.
 """
 from fractions import Fraction
 
@@ -154,6 +156,19 @@ def run(rep, pool, driver, tier):
     ndl_impl = pool.map([L.impl_task(c, 'ndl_openmp') for _, c in groups])
     wh_model = driver.ask([whgen.model_request(t) if t['flavour'] != 'b2b' else L.model_request(c, 'ndl_openmp') for t, c in groups])
     ndl_model = driver.ask([L.model_request(c, 'ndl_openmp') for _, c in groups])
+    py_idx = [i for i, (t, _) in enumerate(groups) if t.get('method')]
+    py_model = dict(zip(py_idx, driver.ask([whgen.py_model_request(groups[i][0]) for i in py_idx])))
+    for i in py_idx:
+        t = groups[i][0]
+        pm = py_model[i]
+        rep.count('py_model:%s:%s' % (t['method'], pm.get('err', 'Returned')))
+        d = whgen.compare_py(wh_impl[i], pm)
+        if d:
+            rep.violation({'what': d, 'input': t, 'observed': wh_impl[i].get('cells', wh_impl[i].get('err')),
+                           'expected': pm.get('cells', pm.get('err')),
+                           'theorem_or_stream': 'C14 %s: %s with one-hot tables vs its own Lean model' % (
+                               'wh_numpy_onehot_eq_ndl' if t['method'] == 'numpy' else 'dict_wh_onehot_eq_ndl',
+                               "wh.wh(method='numpy')" if t['method'] == 'numpy' else 'wh.dict_wh')})
     for (t, c), wi, ni, wm, nm in zip(groups, wh_impl, ndl_impl, wh_model, ndl_model):
         rep.case({k: v for k, v in t.items() if k != 'op'}, nontrivial=True, stream=t.get('_stream', 'onehot_' + t['flavour']))
         rep.count('policy:' + t['policy'])
